@@ -319,23 +319,16 @@ Qed.
 Lemma moof_size_pos fr : 0 < moof_size fr.
 Proof. unfold moof_size. lia. Qed.
 
-Lemma roundtrip_multi tracks ops cs fr opt fe pos0 tx :
-  NoDup tracks -> N.of_nat (length ops) < 4294967296 -> forallb is_full_to ops = true ->
-  Forall (fun o => sized_f (op_full o)) ops ->
-  run_ops (create_multi tracks) ops = (cs, Some fr) ->
+Lemma roundtrip_ginv tracks g fr opt fe pos0 tx :
+  NoDup tracks -> ginv tracks g fr -> sized g ->
   encode_frag opt fr = Ok fe ->
-  let g := ghost tracks [] ops in
   let A := track_fulls (tx_track tx) g in
   moof_size fe + md_header_size (fr_mdat fe) + lenN (all_data g) < 2147483648 ->
   pos0 + fr_pre fe < 4611686018427387904 ->
   td_base (tfdt_of A) < 18446744073709551616 ->
   get_full_samples (decoded_view fe pos0 []) (Some tx) = Ok (retime (td_base (tfdt_of A)) A).
 Proof.
-  intros Hnd Hlen Hfull Hsz Hrun Henc g A Hguard Hpos Hbt.
-  assert (Hi : ginv tracks g fr).
-  { assert (Hc0 : count [] + N.of_nat (length ops) < 4294967296) by (cbn [count]; lia).
-    exact (history_ginv tracks ops [] (create_multi tracks) cs fr Hnd Hc0 Hfull (create_multi_ginv tracks Hnd) Hrun). }
-  assert (Hs : sized g) by (apply ghost_sized; [constructor|exact Hsz]).
+  intros Hnd Hi Hs Henc A Hguard Hpos Hbt.
   destruct (encode_shape tracks g fr opt fe Hnd Hi Hs Henc Hguard) as (fr1 & HT & Etr & Emd & Epre).
   set (base := moof_size fe + md_header_size (fr_mdat fe)) in *.
   set (rr := runs_of g) in *.
@@ -379,6 +372,33 @@ Proof.
     unfold A. rewrite (track_fulls_notin tracks _ g Hn Hnot). reflexivity.
 Qed.
 
+Lemma ghost_ginv tracks ops cs fr0 fr :
+  NoDup tracks -> N.of_nat (length ops) < 4294967296 -> forallb is_full_to ops = true ->
+  ginv tracks [] fr0 -> run_ops fr0 ops = (cs, Some fr) -> ginv tracks (ghost tracks [] ops) fr.
+Proof.
+  intros Hnd Hlen Hfull H0 Hrun.
+  assert (Hc0 : count [] + N.of_nat (length ops) < 4294967296) by (cbn [count]; lia).
+  exact (history_ginv tracks ops [] fr0 cs fr Hnd Hc0 Hfull H0 Hrun).
+Qed.
+
+Lemma roundtrip_multi tracks ops cs fr0 fr opt fe pos0 tx :
+  NoDup tracks -> N.of_nat (length ops) < 4294967296 -> forallb is_full_to ops = true ->
+  Forall (fun o => sized_f (op_full o)) ops ->
+  ginv tracks [] fr0 -> run_ops fr0 ops = (cs, Some fr) ->
+  encode_frag opt fr = Ok fe ->
+  let g := ghost tracks [] ops in
+  let A := track_fulls (tx_track tx) g in
+  moof_size fe + md_header_size (fr_mdat fe) + lenN (all_data g) < 2147483648 ->
+  pos0 + fr_pre fe < 4611686018427387904 ->
+  td_base (tfdt_of A) < 18446744073709551616 ->
+  get_full_samples (decoded_view fe pos0 []) (Some tx) = Ok (retime (td_base (tfdt_of A)) A).
+Proof.
+  intros Hnd Hlen Hfull Hsz H0 Hrun Henc g A Hguard Hpos Hbt.
+  apply (roundtrip_ginv tracks g fr opt fe pos0 tx); try assumption.
+  - exact (ghost_ginv tracks ops cs fr0 fr Hnd Hlen Hfull H0 Hrun).
+  - apply ghost_sized; [constructor|exact Hsz].
+Qed.
+
 (* ------------------------------------------------------------------ statements in terms of the op list *)
 (* the full samples a history adds to track T (additions to ids outside `tracks` are refused) *)
 Definition added_fulls (tracks : list N) (T : N) (ops : list op) : list fullsample :=
@@ -414,23 +434,21 @@ Qed.
 Definition consistent (l : list fullsample) : Prop :=
   match l with [] => True | f :: _ => fs_dts f < 18446744073709551616 /\ retime (fs_dts f) l = l end.
 
-Lemma roundtrip_multi_ops tracks ops cs fr opt fe pos0 tx :
+Lemma roundtrip_multi_ops tracks ops cs fr0 fr opt fe pos0 tx :
   NoDup tracks -> N.of_nat (length ops) < 4294967296 -> forallb is_full_to ops = true ->
   Forall (fun o => sized_f (op_full o)) ops ->
-  run_ops (create_multi tracks) ops = (cs, Some fr) ->
+  ginv tracks [] fr0 -> run_ops fr0 ops = (cs, Some fr) ->
   encode_frag opt fr = Ok fe ->
   moof_size fe + md_header_size (fr_mdat fe) + lenN (md_data (fr_mdat fr)) < 2147483648 ->
   pos0 + fr_pre fe < 4611686018427387904 ->
   consistent (added_fulls tracks (tx_track tx) ops) ->
   get_full_samples (decoded_view fe pos0 []) (Some tx) = Ok (added_fulls tracks (tx_track tx) ops).
 Proof.
-  intros Hnd Hlen Hfull Hsz Hrun Henc Hguard Hpos Hcons.
-  assert (Hi : ginv tracks (ghost tracks [] ops) fr).
-  { assert (Hc0 : count [] + N.of_nat (length ops) < 4294967296) by (cbn [count]; lia).
-    exact (history_ginv tracks ops [] (create_multi tracks) cs fr Hnd Hc0 Hfull (create_multi_ginv tracks Hnd) Hrun). }
+  intros Hnd Hlen Hfull Hsz H0 Hrun Henc Hguard Hpos Hcons.
+  pose proof (ghost_ginv tracks ops cs fr0 fr Hnd Hlen Hfull H0 Hrun) as Hi.
   destruct Hi as (_ & _ & _ & _ & Hdat & _).
   pose proof (track_fulls_ghost tracks (tx_track tx) ops []) as HA. cbn [track_fulls app] in HA.
-  rewrite (roundtrip_multi tracks ops cs fr opt fe pos0 tx Hnd Hlen Hfull Hsz Hrun Henc).
+  rewrite (roundtrip_multi tracks ops cs fr0 fr opt fe pos0 tx Hnd Hlen Hfull Hsz H0 Hrun Henc).
   - rewrite HA. unfold consistent in Hcons. destruct (added_fulls tracks (tx_track tx) ops) as [|f l]; [reflexivity|].
     cbn [tfdt_of set_base td_base]. f_equal. exact (proj2 Hcons).
   - rewrite <- Hdat. exact Hguard.
@@ -440,10 +458,10 @@ Proof.
 Qed.
 
 (* data offsets and tfdt of the fragment a history builds (before encoding) *)
-Lemma offsets_multi tracks ops cs fr :
+Lemma offsets_multi tracks ops cs fr0 fr :
   NoDup tracks -> N.of_nat (length ops) < 4294967296 -> forallb is_full_to ops = true ->
   Forall (fun o => sized_f (op_full o)) ops ->
-  run_ops (create_multi tracks) ops = (cs, Some fr) ->
+  ginv tracks [] fr0 -> run_ops fr0 ops = (cs, Some fr) ->
   let g := ghost tracks [] ops in
   let rr := runs_of g in
   let m := md_size_touch (fr_mdat fr) in
@@ -456,10 +474,8 @@ Lemma offsets_multi tracks ops cs fr :
     Forall (placed (md_data (fr_mdat fr)) rr) (specs_of (track_of t) g) /\
     tf_dt t = tfdt_of (added_fulls tracks (track_of t) ops).
 Proof.
-  intros Hnd Hlen Hfull Hsz Hrun g rr m base Hguard.
-  assert (Hi : ginv tracks g fr).
-  { assert (Hc0 : count [] + N.of_nat (length ops) < 4294967296) by (cbn [count]; lia).
-    exact (history_ginv tracks ops [] (create_multi tracks) cs fr Hnd Hc0 Hfull (create_multi_ginv tracks Hnd) Hrun). }
+  intros Hnd Hlen Hfull Hsz H0 Hrun g rr m base Hguard.
+  pose proof (ghost_ginv tracks ops cs fr0 fr Hnd Hlen Hfull H0 Hrun) as Hi. fold g in Hi.
   assert (Hs : sized g) by (apply ghost_sized; [constructor|exact Hsz]).
   pose proof (all_truns_perm tracks g fr Hnd Hi) as Hperm.
   destruct Hi as (Hm & Htr & Hn & Hf & Hdat & Hpar & Hlaz).
@@ -470,4 +486,192 @@ Proof.
     split; [rewrite (Hft t Hin); apply mk_truns_specs|]. split.
     + rewrite Hdat. apply (specs_placed (track_of t) g []). exact Hs.
     + destruct (Hf t Hin) as [_ Hd]. rewrite Hd. unfold g. rewrite track_fulls_ghost. reflexivity.
+Qed.
+
+(* ------------------------------------------------------------------ extra boxes do not matter for the invariant *)
+Lemma set_extras_Forall (P : traf -> Prop) :
+  (forall t e, P t -> P (mkTraf (tf_hd t) (tf_dt t) (tf_truns t) e)) ->
+  forall ts exs, Forall P ts -> Forall P (set_extras ts exs).
+Proof.
+  intros HP. induction ts as [|t ts IH]; intros exs H; [destruct exs; exact H|].
+  inversion H as [|? ? Ht Hts]; subst. destruct exs as [|e exs]; [exact H|]. cbn [set_extras].
+  constructor; [apply HP; exact Ht|apply IH; exact Hts].
+Qed.
+
+Lemma set_extras_map {B} (f : traf -> B) :
+  (forall t e, f (mkTraf (tf_hd t) (tf_dt t) (tf_truns t) e) = f t) ->
+  forall ts exs, map f (set_extras ts exs) = map f ts.
+Proof.
+  intros Hf. induction ts as [|t ts IH]; intros exs; [destruct exs; reflexivity|].
+  destruct exs as [|e exs]; [reflexivity|]. cbn [set_extras map]. rewrite Hf, IH. reflexivity.
+Qed.
+
+Lemma ginv_extras tracks g fr pre mx post exs :
+  ginv tracks g fr -> ginv tracks g (with_extras fr pre mx post exs).
+Proof.
+  intros ((Hn & Hd & Hf) & Htr & Hne & Hhd & Hdat). unfold ginv, multi_inv, with_extras.
+  cbn [fr_trafs fr_next fr_mdat]. repeat split; try tauto.
+  - rewrite set_extras_map; [exact Hd|reflexivity].
+  - apply set_extras_Forall; [|exact Hf]. intros t e H. exact H.
+  - rewrite set_extras_map; [exact Htr|reflexivity].
+  - apply set_extras_Forall; [|exact Hhd]. intros t e H. exact H.
+Qed.
+
+Lemma create_multi_extras_ginv tracks pre mx post exs :
+  NoDup tracks -> ginv tracks [] (with_extras (create_multi tracks) pre mx post exs).
+Proof. intros H. apply ginv_extras, create_multi_ginv. exact H. Qed.
+
+(* ------------------------------------------------------------------ single-track fragments *)
+(* CreateFragment(seq,T) + extra boxes, then AddFullSample / AddFullSampleToTrack *)
+Definition sinv (T : N) (fl : list fullsample) (fr : frag) : Prop :=
+  (exists ex, fr_trafs fr = [mkTraf (create_tfhd T) (tfdt_of fl) [canon 0 (map fs_s fl)] ex]) /\
+  fr_next fr = 1 /\
+  md_data (fr_mdat fr) = flat_map fs_data fl /\ md_parts (fr_mdat fr) = [] /\ md_lazy (fr_mdat fr) = 0.
+
+Lemma create_fragment_sinv T pre mx post exs : sinv T [] (with_extras (create_fragment T) pre mx post exs).
+Proof.
+  unfold sinv, with_extras. cbn [create_fragment fr_trafs fr_next fr_mdat md_data md_parts md_lazy].
+  repeat split. destruct exs as [|e exs]; cbn [set_extras]; eexists; reflexivity.
+Qed.
+
+Lemma tfdt_of_snoc fl s d data :
+  lenN fl < 4294967296 ->
+  (if u32 (lenN (map fs_s fl)) =? 0 then set_base d else tfdt_of fl) = tfdt_of (fl ++ [mkFull s d data]).
+Proof.
+  intros Hb. replace (lenN (map fs_s fl)) with (lenN fl) by (unfold lenN; rewrite map_length; reflexivity).
+  rewrite u32_small by exact Hb. destruct fl as [|f0 fl]; [reflexivity|].
+  rewrite lenN_cons. destruct (1 + lenN fl =? 0) eqn:E; [apply N.eqb_eq in E; lia|reflexivity].
+Qed.
+
+Lemma step_sinv T fl fr o fr' :
+  lenN fl < 4294967296 -> is_full o = true -> sinv T fl fr -> step fr o = Ok fr' ->
+  hits T o = true /\ sinv T (fl ++ [op_full o]) fr'.
+Proof.
+  intros Hb Hf ((ex & Ht) & Hn & Hd & Hp & Hl) H.
+  destruct o as [s d data|t s d data|t s d|s d|ss d|d ss data]; try discriminate;
+    cbn [step hits op_track op_full op_first_sample op_dts op_data] in *.
+  - unfold add_first in H. rewrite Ht in H. cbn [tf_truns rbind tf_hd tf_dt tf_extra tr_samples canon] in H.
+    injection H as <-. split; [reflexivity|]. unfold sinv.
+    cbn [fr_with fr_trafs fr_next fr_mdat md_add_data md_data md_parts md_lazy].
+    rewrite (tfdt_of_snoc fl s d data Hb), tr_add_canon, map_app, flat_map_app, Hd.
+    cbn [map flat_map fs_s fs_data]. rewrite app_nil_r. repeat split; try assumption. eexists; reflexivity.
+  - unfold add_sample_to_track in H. rewrite Ht, Hn in H. cbn [add_to_track_trafs tf_hd tf_track create_tfhd] in H.
+    destruct (T =? t) eqn:E; [|discriminate].
+    unfold add_to_traf in H. cbn [tf_truns last removelast tr_won canon tf_hd tf_extra tf_dt app tr_samples] in H.
+    change (u32 (1 + 4294967295)) with 0 in H. cbn [N.eqb negb rbind] in H. injection H as <-.
+    split; [rewrite N.eqb_sym; exact E|]. unfold sinv.
+    cbn [fr_with fr_trafs fr_next fr_mdat md_add_data md_set_lazy0 md_add_lazy md_data md_parts md_lazy].
+    rewrite (tfdt_of_snoc fl s d data Hb), tr_add_canon, map_app, flat_map_app, Hd.
+    cbn [map flat_map fs_s fs_data]. rewrite app_nil_r. repeat split; try assumption. eexists; reflexivity.
+Qed.
+
+Lemma step_sinv_err T fl fr o : is_full o = true -> sinv T fl fr -> step fr o = Err -> hits T o = false.
+Proof.
+  intros Hf ((ex & Ht) & Hn & _) H. apply (step_single_err T (map fs_s fl) fr o); [|exact H].
+  exists (tfdt_of fl), ex. split; assumption.
+Qed.
+
+Definition added1_fulls (T : N) (ops : list op) : list fullsample := map op_full (filter (hits T) ops).
+
+Lemma history_sinv T ops : forall fl fr cs fr',
+  lenN fl + N.of_nat (length ops) < 4294967296 -> forallb is_full ops = true ->
+  sinv T fl fr -> run_ops fr ops = (cs, Some fr') -> sinv T (fl ++ added1_fulls T ops) fr'.
+Proof.
+  induction ops as [|o ops IH]; intros fl fr cs fr' Hb Hf Hi H; cbn [run_ops] in H.
+  - injection H as _ <-. unfold added1_fulls. cbn. rewrite app_nil_r. exact Hi.
+  - cbn [forallb] in Hf. apply andb_true_iff in Hf. destruct Hf as [Hf1 Hf2]. cbn [length] in Hb.
+    destruct (step fr o) as [fr1| | |] eqn:E; try discriminate.
+    + destruct (run_ops fr1 ops) as [cs1 r1] eqn:E1. injection H as _ ->.
+      destruct (step_sinv T fl fr o fr1 ltac:(lia) Hf1 Hi E) as [Hh Hi1].
+      assert (Hb1 : lenN (fl ++ [op_full o]) + N.of_nat (length ops) < 4294967296).
+      { rewrite lenN_app. unfold lenN at 2. cbn [length]. lia. }
+      specialize (IH _ _ _ _ Hb1 Hf2 Hi1 E1).
+      unfold added1_fulls in *. cbn [filter]. rewrite Hh. cbn [map]. rewrite <- app_assoc in IH. exact IH.
+    + destruct (run_ops fr ops) as [cs1 r1] eqn:E1. injection H as _ ->.
+      pose proof (step_sinv_err T fl fr o Hf1 Hi E) as Hh.
+      assert (Hb1 : lenN fl + N.of_nat (length ops) < 4294967296) by lia.
+      specialize (IH _ _ _ _ Hb1 Hf2 Hi E1).
+      unfold added1_fulls in *. cbn [filter]. rewrite Hh. exact IH.
+Qed.
+
+(* a single-track fragment holding at least one sample is the one-run instance of the general invariant *)
+Lemma sinv_ginv T fl fr : fl <> [] -> sinv T fl fr -> ginv [T] [(T, fl)] fr.
+Proof.
+  intros Hne ((ex & Ht) & Hn & Hd & Hp & Hl). unfold ginv, multi_inv. rewrite Ht, Hn.
+  cbn [runs_of map fst snd mk_truns track_fulls all_data app tf_hd tf_track create_tfhd tf_truns tf_dt].
+  rewrite ?N.eqb_refl. cbn [app]. unfold track_of. cbn [tf_hd tf_track create_tfhd map].
+  rewrite ?N.eqb_refl. cbn [app].
+  repeat split; try assumption.
+  - constructor; [intros []|constructor].
+  - constructor; [|constructor]. cbn [tf_truns tf_hd tf_track create_tfhd]. rewrite N.eqb_refl. reflexivity.
+  - constructor; [|constructor]. cbn. split; [left; reflexivity|exact Hne].
+  - constructor; [|constructor]. cbn [tf_dt tf_hd tf_track create_tfhd]. rewrite N.eqb_refl. split; reflexivity.
+Qed.
+
+Lemma roundtrip_single T ops cs fr opt fe pos0 tx pre mx post exs :
+  N.of_nat (length ops) < 4294967296 -> forallb is_full ops = true ->
+  Forall (fun o => sized_f (op_full o)) ops ->
+  run_ops (with_extras (create_fragment T) pre mx post exs) ops = (cs, Some fr) ->
+  encode_frag opt fr = Ok fe ->
+  added1_fulls T ops <> [] ->
+  moof_size fe + md_header_size (fr_mdat fe) + lenN (md_data (fr_mdat fr)) < 2147483648 ->
+  pos0 + fr_pre fe < 4611686018427387904 ->
+  consistent (added1_fulls T ops) ->
+  get_full_samples (decoded_view fe pos0 []) (Some tx) =
+    Ok (if tx_track tx =? T then added1_fulls T ops else []).
+Proof.
+  intros Hlen Hfull Hsz Hrun Henc Hne Hguard Hpos Hcons.
+  pose proof (history_sinv T ops [] _ cs fr ltac:(unfold lenN; cbn [length]; lia) Hfull
+                (create_fragment_sinv T pre mx post exs) Hrun) as Hsi. cbn [app] in Hsi.
+  pose proof (sinv_ginv T _ fr Hne Hsi) as Hi.
+  assert (Hs : sized [(T, added1_fulls T ops)]).
+  { constructor; [|constructor]. cbn [snd]. unfold added1_fulls. apply Forall_forall. intros f Hf.
+    apply in_map_iff in Hf. destruct Hf as (o & <- & Ho). apply filter_In in Ho.
+    rewrite Forall_forall in Hsz. apply Hsz. exact (proj1 Ho). }
+  assert (Hdat : md_data (fr_mdat fr) = all_data [(T, added1_fulls T ops)]).
+  { destruct Hi as (_ & _ & _ & _ & Hd & _). exact Hd. }
+  rewrite (roundtrip_ginv [T] _ fr opt fe pos0 tx (ltac:(repeat constructor; intros []) : NoDup [T]) Hi Hs Henc).
+  - cbn [track_fulls app]. rewrite (N.eqb_sym T). destruct (tx_track tx =? T); [|reflexivity].
+    unfold consistent in Hcons. destruct (added1_fulls T ops) as [|f l]; [congruence|].
+    cbn [tfdt_of set_base td_base]. f_equal. exact (proj2 Hcons).
+  - rewrite <- Hdat. exact Hguard.
+  - exact Hpos.
+  - cbn [track_fulls app]. destruct (T =? tx_track tx); [|cbn; lia].
+    unfold consistent in Hcons. destruct (added1_fulls T ops) as [|f l]; [congruence|].
+    cbn [tfdt_of set_base td_base]. exact (proj1 Hcons).
+Qed.
+
+(* ------------------------------------------------------------------ final statements (C05Theorems) *)
+Lemma roundtrip_multi_final tracks pre mx post exs ops cs fr opt fe pos0 tx :
+  NoDup tracks -> N.of_nat (length ops) < 4294967296 -> forallb is_full_to ops = true ->
+  Forall (fun o => sized_f (op_full o)) ops ->
+  run_ops (with_extras (create_multi tracks) pre mx post exs) ops = (cs, Some fr) ->
+  encode_frag opt fr = Ok fe ->
+  moof_size fe + md_header_size (fr_mdat fe) + lenN (md_data (fr_mdat fr)) < 2147483648 ->
+  pos0 + fr_pre fe < 4611686018427387904 ->
+  consistent (added_fulls tracks (tx_track tx) ops) ->
+  get_full_samples (decoded_view fe pos0 []) (Some tx) = Ok (added_fulls tracks (tx_track tx) ops).
+Proof.
+  intros Hnd Hlen Hfull Hsz Hrun. apply (roundtrip_multi_ops tracks ops cs (with_extras (create_multi tracks) pre mx post exs) fr); try assumption.
+  apply create_multi_extras_ginv. exact Hnd.
+Qed.
+
+Lemma offsets_multi_final tracks pre mx post exs ops cs fr :
+  NoDup tracks -> N.of_nat (length ops) < 4294967296 -> forallb is_full_to ops = true ->
+  Forall (fun o => sized_f (op_full o)) ops ->
+  run_ops (with_extras (create_multi tracks) pre mx post exs) ops = (cs, Some fr) ->
+  let g := ghost tracks [] ops in
+  let rr := runs_of g in
+  let m := md_size_touch (fr_mdat fr) in
+  let base := moof_size fr + md_header_size m in
+  base + lenN (md_data (fr_mdat fr)) < 2147483648 ->
+  set_offsets fr = fr_with fr (with_offsets fr (fun r => Z.of_N (base + run_pos rr (tr_won r)))) m (fr_next fr) /\
+  md_data (fr_mdat fr) = all_data g /\
+  forall t, In t (fr_trafs fr) ->
+    tf_truns t = map canon_of (specs_of (track_of t) g) /\
+    Forall (placed (md_data (fr_mdat fr)) rr) (specs_of (track_of t) g) /\
+    tf_dt t = tfdt_of (added_fulls tracks (track_of t) ops).
+Proof.
+  intros Hnd Hlen Hfull Hsz Hrun. apply (offsets_multi tracks ops cs (with_extras (create_multi tracks) pre mx post exs) fr); try assumption.
+  apply create_multi_extras_ginv. exact Hnd.
 Qed.
